@@ -72,6 +72,8 @@ def cases(tier, seed):
             src['fmt'] = [2, 3, 8][(i // 7) % 3]          # integer sample formats
         if i % 9 == 4:
             src['sorting'] = 1                            # crossline-sorted file (the cube is the same, the trace order is not)
+            if i % 18 == 4:
+                src['valkind'] = 'deadborder'             # ... with a dead rim: the first n_xl traces of the file equal the first inline's, nothing tells the two trace orders apart there
         routes = ['numpy', 'segyio', 'iops']
         if i % 4 == 0:
             routes.append('cli')
